@@ -188,6 +188,9 @@ def run(cx):
     # ---------------------------------------------------------------- A1 only authenticated, non-synthesised NSEC/NSEC3 enter the proof
     C06.nsec_not_wildcard_expanded(cx, 'C09.A1')
 
+    # ---------------------------------------------------------------- B1 the type bit map decoder
+    type_bitmap(cx, 'C09.B1')
+
     # ---------------------------------------------------------------- H helper semantics the guards above rely on (rules/helpers.py)
     helpers.check(cx, 'C09.H', ['Name::zone_of', 'Name::base_name', 'RecordTypeSet::contains', 'NSEC3::type_set'])
 
@@ -195,6 +198,37 @@ def run(cx):
     argnames.check(cx, 'C09.N1', r'hickory_net::dnssec', floor=80)
     argnames.check_fields(cx, 'C09.N1', r'hickory_net::dnssec', floor=45)
 
+
+
+def type_bitmap(cx, rule):
+    """the NSEC / NSEC3 type bit map decoder (shared by C08 and C09: every "type bit clear" guard reads its result).  RFC 4034
+    4.1.2 / RFC 5155 3.2.1: bit b of octet o of window w set <=> type (w << 8) | (o * 8 + b) is present.  Every set bit is inserted
+    - the only things between the bit test and the next bit are the index arithmetic (whose failure is an error return) and the
+    insert - and what is inserted is exactly that type code.  (The signature covers the raw octets, which are kept and re-emitted
+    verbatim: a decoder that drops or shifts a type still validates and silently changes what the proofs say.)"""
+    f = cx.fn(rule, r"<hickory_proto::rr::record_type_set::RecordTypeSet as hickory_proto::rr::RecordDataDecodable<'_>>::read_data")
+    if not f:
+        return
+    setb = []
+    for bi in range(len(f.blocks)):
+        for t_, ps in (f.edge_props(bi) or {}).items():
+            if any(re.search(r'^eq\(128,bitand\(.*,128\)\)$', shorten(p_)) for p_ in ps):
+                setb.append(t_)
+    cx.check(rule, len(setb) == 1, f.path, 'edges', 'most-significant-bit-test', str(len(setb)))
+    ins = cx.calls(f, r'BTreeSet<T, A>::insert$|BTreeSet::insert$')
+    cx.check(rule, len(ins) == 1, f.path, 'calls', 'single-insert', str(len(ins)))
+    nxt = cx.assigns(f, r'^shl\(.*,1\)$', place=None)
+    cx.check(rule, len(nxt) == 1, f.path, 'stmts', 'bit-map-shifted-left-by-one-per-bit', str(len(nxt)))
+    if setb and ins and nxt:
+        cx.must_pass(rule, f, nxt, via_blocks={ins[0].bb}, start_blocks=setb, what='every-set-bit-is-inserted')
+        between = cx.reachable_from(f, setb, avoid_blocks=[ins[0].bb, nxt[0].bb])
+        tests = [bi for bi in between if len([x for x in f.succs(bi) if not f.blocks[x]['cleanup']]) > 1
+                 and not all(any(re.search(r'^!?ok\(|^!?is\(', shorten(p_)) for p_ in ps) for ps in (f.edge_props(bi) or {}).values())]
+        cx.check(rule, not tests, f.path, 'guards', 'no-condition-but-index-arithmetic-between-bit-test-and-insert',
+                 '; '.join(f.loc(b) for b in tests[:3]))
+        t = ins[0].term
+        ok = bool(re.search(r"^BTreeSet::insert\(BTreeSet::new\(\),into<RecordType>\(bitor\(shl\(into<u16>\(.*@RecordType\.window\),8\),into<u16>\(Restrict::unverified\(try\(Result::map_err\((<Result<R;A> as RestrictedMath>|RestrictedMath)::checked_add\((<Result<R;A> as RestrictedMath>|RestrictedMath)::checked_mul\(.*,8\),range::next\(Range\(0,8\)\)@Some\.0\),closure:[^)]*\)\)@Continue\.0\)\)\)\)\)$", t))
+        cx.check(rule, ok, f.path, ins[0].key(), 'type=(window<<8)|((len-left)*8+bit)', t[:100] + ' ... ' + t[-160:], ins[0].loc)
 
 
 def auth_filter(cx, rule, variant):
